@@ -7,6 +7,7 @@ import (
 	"encoding/hex"
 	"errors"
 	"fmt"
+	"math"
 	"runtime"
 	"testing"
 
@@ -37,6 +38,60 @@ type Case struct {
 	FOffset int    `json:"foffset,omitempty"`
 	FLevel  int    `json:"flevel,omitempty"`
 	FValue  uint32 `json:"fvalue,omitempty"`
+	// Huge (Class == "huge"): Data is not stored but made from this - an honest
+	// encoding of one line or one-ring polygon with more than a mebibyte of ordinates
+	Huge *HugeSpec `json:"huge,omitempty"`
+}
+
+// HugeSpec describes one honest encoding whose single coordinate array is around
+// 2^17 or 2^18 ordinates (1 or 2 MiB): whatever a decoder reads in blocks, in chunks
+// or through a buffer of fixed size is filled many times over. The ordinates are the
+// whole numbers 1, 2, 3, ... in order, so a block read to the wrong place shows.
+type HugeSpec struct {
+	Polygon  bool `json:"polygon"`
+	Stride   int  `json:"stride"` // 2, 3 (Z) or 4
+	Coords   int  `json:"coords"`
+	XDR      bool `json:"xdr"`
+	Trailing int  `json:"trailing,omitempty"` // bytes cut off the end (0 = honest)
+}
+
+func (h *HugeSpec) bytes(mode string) []byte {
+	var bo binary.AppendByteOrder = binary.LittleEndian
+	out := []byte{1}
+	if h.XDR {
+		bo, out[0] = binary.BigEndian, 0
+	}
+	typ := uint32(2)
+	if h.Polygon {
+		typ = 3
+	}
+	if mode == "ewkb" {
+		typ |= map[int]uint32{2: 0, 3: 0x80000000, 4: 0xC0000000}[h.Stride]
+	} else {
+		typ += map[int]uint32{2: 0, 3: 1000, 4: 3000}[h.Stride]
+	}
+	out = bo.AppendUint32(out, typ)
+	if h.Polygon {
+		out = bo.AppendUint32(out, 1)
+	}
+	out = bo.AppendUint32(out, uint32(h.Coords))
+	n := h.Coords * h.Stride
+	for i := 0; i < n; i++ {
+		v := float64(i + 1)
+		if h.Polygon && i >= n-h.Stride {
+			v = float64(i - (n - h.Stride) + 1) // the ring closes
+		}
+		out = bo.AppendUint64(out, math.Float64bits(v))
+	}
+	return out[:len(out)-h.Trailing]
+}
+
+// full is the case with its Data in place.
+func (c Case) full() Case {
+	if c.Huge != nil {
+		c.Data = c.Huge.bytes(c.Mode)
+	}
+	return c
 }
 
 // hostile counts: large round numbers, and the counts at which a product with a
@@ -152,6 +207,15 @@ func genCase(t *rapid.T) Case {
 	if rapid.IntRange(0, 29).Draw(t, "many") == 17 {
 		class = "many"
 	}
+	if rapid.IntRange(0, 399).Draw(t, "huge") == 257 {
+		stride := rapid.IntRange(2, 4).Draw(t, "hstride")
+		ords := rapid.SampledFrom([]int{1 << 17, 1 << 18}).Draw(t, "hords") + rapid.SampledFrom([]int{-stride, 0, stride, 8 * stride, 9000 * stride}).Draw(t, "hd")
+		h := &HugeSpec{Polygon: rapid.Bool().Draw(t, "hpoly"), Stride: stride, Coords: (ords + stride - 1) / stride, XDR: rapid.Bool().Draw(t, "hxdr")}
+		if rapid.IntRange(0, 3).Draw(t, "htrunc") == 0 {
+			h.Trailing = rapid.SampledFrom([]int{1, 8, 1 << 10, 1<<20 + 3}).Draw(t, "htrail")
+		}
+		return Case{Class: "huge", Mode: mode, Limits: [3]int{1 << 19, 1 << 19, 1 << 19}, Huge: h}
+	}
 	_, data, fields, typeWords, typeWordBE := genBaseM(t, mode)
 	c := Case{Class: class, Mode: mode}
 	limitSet := []int{0, 1, 3, 64, 4096}
@@ -189,6 +253,7 @@ func genCase(t *rapid.T) Case {
 			return [][]model.F{pt(i, 0), pt(i+1, 0), pt(i, 1), pt(i, 0)}
 		}
 		g := &model.G{Kind: kind, Layout: int(l)}
+		manymember := rapid.IntRange(0, 5).Draw(t, "manymember")
 		for i := 0; i < n; i++ {
 			switch kind {
 			case model.Polygon:
@@ -200,7 +265,22 @@ func genCase(t *rapid.T) Case {
 			case model.MultiPoint:
 				g.C1 = append(g.C1, pt(i, -i))
 			default:
-				g.Members = append(g.Members, model.G{Kind: model.Point, Layout: int(l), C0: pt(i, i)})
+				// members of one sort, or of all sorts in turn: what is counted per point, per
+				// member-less collection or per collection closed reaches the hundreds
+				var m model.G
+				switch sort := manymember; {
+				case sort == 0 || sort == 5 && i%5 == 0:
+					m = model.G{Kind: model.Point, Layout: int(l), C0: pt(i, i)}
+				case sort == 1 || sort == 5 && i%5 == 1:
+					m = model.G{Kind: model.GeometryCollection}
+				case sort == 2 || sort == 5 && i%5 == 2:
+					m = model.G{Kind: model.GeometryCollection, Layout: int(l)}
+				case sort == 3 || sort == 5 && i%5 == 3:
+					m = model.G{Kind: model.GeometryCollection, Members: []model.G{{Kind: model.Point, Layout: int(l), C0: pt(i, i)}}}
+				default:
+					m = model.G{Kind: model.LineString, Layout: int(l), C1: [][]model.F{pt(i, 0), pt(i, 1)}}
+				}
+				g.Members = append(g.Members, m)
 			}
 		}
 		var err error
@@ -389,7 +469,8 @@ func sumLimits(l [3]int) int {
 }
 
 func prop(c Case) error {
-	if len(c.Data) > 1<<17 {
+	c = c.full()
+	if len(c.Data) > 1<<17 && c.Huge == nil {
 		return nil
 	}
 	if !executable(c) {
@@ -607,6 +688,7 @@ func scanAgrees(c Case, g geom.T, derr error) error {
 }
 
 func classify(c Case) ([]string, bool) {
+	c = c.full()
 	w := refwkb.Walk(c.Data, refMode(c.Mode))
 	cl := []string{"class:" + c.Class, "mode:" + c.Mode}
 	if w.OK {
